@@ -24,6 +24,10 @@ COQ = os.path.join(VERIF, "coq")
 BUILD = os.path.join(VERIF, "build")
 HARNESS = os.path.join(VERIF, "harness")
 BIN = os.path.join(BUILD, "bin")
+# VERIF_REPO=<scratch worktree> runs a check against another copy of onflow/cadence (used for
+# testing the checks against seeded changes); everything it writes is kept apart from the real run.
+ALT = REPO != "/repo"
+ALT_TAG = ("alt_" + re.sub(r"[^A-Za-z0-9]+", "_", REPO).strip("_")) if ALT else ""
 
 FORBIDDEN = re.compile(
     r"\b(Admitted|admit|Axiom|Axioms|Parameter|Parameters|Conjecture|Conjectures|"
@@ -133,12 +137,14 @@ class Ctx:
         self.trusted = []
         self.level = "proof"
         self.l1 = None           # result of proof leg
-        self.work = os.path.join(BUILD, "work", pid)
+        self.work = os.path.join(BUILD, "work" + ("_" + ALT_TAG if ALT else ""), pid)
         shutil.rmtree(self.work, ignore_errors=True)
         os.makedirs(self.work, exist_ok=True)
         self.notes = []
         self.nreplay = 0
-        shutil.rmtree(os.path.join(VERIF, "replays", pid), ignore_errors=True)
+        self.replay_dir = os.path.join(VERIF, "replays", pid) if not ALT else os.path.join(BUILD, "replays_" + ALT_TAG, pid)
+        self.evidence_dir = os.path.join(VERIF, "evidence") if not ALT else os.path.join(BUILD, "evidence_" + ALT_TAG)
+        shutil.rmtree(self.replay_dir, ignore_errors=True)
 
     # ---------------------------------------------------------------- logging
     def log(self, *a):
@@ -236,13 +242,23 @@ class Ctx:
     # ---------------------------------------------------------------- harness
     def go_build(self, pkg, race=False, timeout=1500):
         os.makedirs(BIN, exist_ok=True)
-        out_bin = os.path.join(BIN, pkg + ("_race" if race else ""))
-        with Lock("go"):
-            try:
-                shutil.copyfile(os.path.join(REPO, "go.sum"), os.path.join(HARNESS, "go.sum"))
-            except OSError:
-                pass
-            cmd = ["go", "build", "-tags", "verif"] + (["-race"] if race else []) + ["-o", out_bin, "./" + pkg]
+        out_bin = os.path.join(BIN + ("_" + ALT_TAG if ALT else ""), pkg + ("_race" if race else ""))
+        os.makedirs(os.path.dirname(out_bin), exist_ok=True)
+        with Lock("go" + ALT_TAG):
+            modargs = []
+            if ALT:
+                modfile = os.path.join(BUILD, "go_%s.mod" % ALT_TAG)
+                src = open(os.path.join(HARNESS, "go.mod")).read().replace("=> /repo", "=> " + REPO)
+                with open(modfile, "w") as fh:
+                    fh.write(src)
+                shutil.copyfile(os.path.join(REPO, "go.sum"), modfile[:-4] + ".sum")
+                modargs = ["-modfile=" + modfile]
+            else:
+                try:
+                    shutil.copyfile(os.path.join(REPO, "go.sum"), os.path.join(HARNESS, "go.sum"))
+                except OSError:
+                    pass
+            cmd = ["go", "build", "-tags", "verif"] + modargs + (["-race"] if race else []) + ["-o", out_bin, "./" + pkg]
             rc, out = sh(cmd, cwd=HARNESS, timeout=timeout, env=go_env())
         if rc != 0:
             return None, out
@@ -262,15 +278,15 @@ class Ctx:
 
     def finish(self, level=None):
         level = level or self.level
-        kf_path = os.path.join(VERIF, "known_findings.json")
+        kf_path = os.path.join(VERIF, "known_findings", self.pid + ".json")
         known = []
         if os.path.exists(kf_path):
             known = [k for k in json.load(open(kf_path)).get("findings", [])
-                     if k.get("property") == self.pid and k.get("status") == "known"]
+                     if k.get("status") == "known"]
         known_keys = {k["key"]: k for k in known}
         viol = 0
         printed = set()
-        rdir = os.path.join(VERIF, "replays", self.pid)
+        rdir = self.replay_dir
         seen_keys = set()
         for f in self.failures:
             if f["key"] in seen_keys and f["key"] not in known_keys:
@@ -314,8 +330,8 @@ class Ctx:
             "coverage": cov, "assumptions": self.assumptions, "wall_s": round(time.time() - self.t0, 2),
             "violations": viol, "notes": self.notes,
         }
-        os.makedirs(os.path.join(VERIF, "evidence"), exist_ok=True)
-        with open(os.path.join(VERIF, "evidence", self.pid + ".json"), "w") as fh:
+        os.makedirs(self.evidence_dir, exist_ok=True)
+        with open(os.path.join(self.evidence_dir, self.pid + ".json"), "w") as fh:
             json.dump(ev, fh, indent=1, default=str)
         self.log("done: violations=%d known=%d obligations=%s/%s evaluations=%s" % (
             viol, len(printed), cov.get("discharged"), cov.get("obligations"), cov.get("evaluations")))
